@@ -325,6 +325,10 @@ func (e *Engine) newHasher(st *State, resT types.Type, kind string, key string) 
 		keyTerm = uninterpStr(e, st, "lib!hmackey", key)
 	}
 	st.setHeap(kn, ks, store(st.heap(kn, ks), r, keyTerm))
+	if st.hashEmpty == nil {
+		st.hashEmpty = map[string]bool{}
+	}
+	st.hashEmpty[r] = true
 	return Val{S: mkIface(tag, r), T: resT}
 }
 
@@ -333,6 +337,12 @@ func (e *Engine) hasherAppend(st *State, recv Val, data Val) {
 	h := st.heap(hn, hs)
 	cur := sel(h, ifVal(recv.S))
 	d := e.contentOf(st, data)
+	if st.hashEmpty[ifVal(recv.S)] {
+		// first write into a fresh hasher: the state is exactly the written bytes
+		delete(st.hashEmpty, ifVal(recv.S))
+		st.setHeap(hn, hs, store(h, ifVal(recv.S), d))
+		return
+	}
 	n := st.freshConst("hashcat", "Str")
 	la, lb := strLen(cur), strLen(d)
 	st.assume(eq(strLen(n), add(la, lb)))
@@ -355,6 +365,10 @@ func (e *Engine) hasherSum(st *State, recv Val, prefix Val, resT types.Type) Val
 	arr := st.freshConst("sumarr", "(Array Int Int)")
 	st.assume(fmt.Sprintf("(forall ((i Int)) (! (=> (and (<= 0 i) (< i 32)) (and (= (select %s i) (select (s.arr %s) i)) (<= 0 (select %s i)) (< (select %s i) 256))) :pattern ((select %s i))))", arr, dig, arr, arr, arr))
 	st.assume(eq("(s.len "+dig+")", "32"))
+	// the string of the returned bytes is the digest itself (so that string(sum) == digest(...) needs no extensionality)
+	cfn := "content!" + tkey(et)
+	reg.declareFun(cfn, []string{fmt.Sprintf("(Array Int %s)", sortOf(et)), "Int", "Int"}, "Str")
+	st.assume(eq(fmt.Sprintf("(%s %s 0 32)", cfn, arr), dig))
 	st.setHeap(en, es, store(st.heap(en, es), r, arr))
 	cp := st.freshConst("sumcap", "Int")
 	st.assume(fmt.Sprintf("(and (>= %s 32) (<= %s 64))", cp, cp))
